@@ -8,7 +8,7 @@ use libhaystack::units::{get_unit, Unit};
 use libhaystack::val::Number;
 use serde_json::{json, Value as J};
 
-const MAGS: &[f64] = &[0.0, 1.0, -1.0, 0.5, 100.0, -273.15, 1e-7, 123456789.125, 1e21];
+const MAGS: &[f64] = &[0.0, 1.0, -1.0, 0.5, 100.0, -273.15, 1e-7, 123456789.125, 1e21, 3.141592653589793, 0.3333333333333333, 0.30000000000000004, -123456789.12345679, 2.718281828459045e-7, 1.2345678901234567e15, 1.2345678901234567e-200, 9.87654321098765e200];
 const EPS: f64 = f64::EPSILON;
 
 fn is_byte(r: &RefUnit) -> bool {
@@ -180,7 +180,7 @@ fn sig_for(stage: &str, ia: usize, ib: usize) -> String {
 
 pub fn run(tier: Tier) -> i32 {
     let mut run = Run::new("C16", tier, "exploration");
-    run.rule = "all ordered pairs of the units of units.txt x 9 magnitudes for convert_to (+ back), unit * and /, Number + - * / over 4 magnitudes; reference = scale/offset/dimension table parsed by the harness; non-trivial = ordered pair of two different units".into();
+    run.rule = "all ordered pairs of the units of units.txt x 17 magnitudes (round ones, full-mantissa ones such as pi, 1/3, 0.1+0.2, very small and very large normal doubles) for convert_to (+ back), unit * and /, Number + - * / over 4 magnitudes; reference = scale/offset/dimension table parsed by the harness; non-trivial = ordered pair of two different units".into();
     run.assume("forward error bounds 8ε/32ε·(|x·sa|+|oa|+|ob|)/|s| derived from the operation count of the conversion formula");
     run.assume("unit product/quotient scale compared with the library's own matching tolerance 10^-3");
     run.assume("+/- with exactly one unit-less operand is left unconstrained (the statement does not say)");
